@@ -172,7 +172,10 @@ theorem apply_false_noop (C : Crypto) (c : Core) (d : Disk) (p : Proof)
         | ok pr =>
           obtain ⟨j0, bu⟩ := pr
           simp only [hd] at h
-          exact absurd h (applyVerified_not_false c p cs j0 bu)
+          by_cases he : encodable cs = true
+          · simp only [he, ite_true] at h
+            exact absurd h (applyVerified_not_false c p cs j0 bu)
+          · simp [he] at h
       · simp [hc]
 
 /-- an error answer before the commit stage leaves the core and the storage untouched -/
